@@ -65,6 +65,7 @@ type emitSite struct {
 	ops    []int64
 	caseNT []int64 // node-type labels (with Before/After bits) of the enclosing emitFragment arm; nil outside
 	fn     string
+	rtlBit bool // some evaluated value of the opcode expression carries the Rtl bit
 }
 
 func constInScope(pk *types.Package, name string) (int64, bool) {
@@ -464,6 +465,9 @@ func (m *opModel) buildEmits() {
 			}
 			seen := map[int64]bool{}
 			for _, v := range vals {
+				if v&m.rtl != 0 {
+					site.rtlBit = true
+				}
 				if !seen[v&m.mask] {
 					seen[v&m.mask] = true
 					site.ops = append(site.ops, v&m.mask)
